@@ -18,9 +18,19 @@
   * proved at full strength: `C08_flag_monotone`, `C08_monotone`, `C08_sound` (+ `C08_anc_ever`),
     `C08_notify_post`, `C08_expiry_min_partial` (hypothesis `¬ bornNotified`), and the refutation
     `C08_expiry_min_witness` of the unrestricted statement (known finding F5, two flavours).
-  * see the end of the file for `C08_complete` / `C08_unaffected`.
+  * `C08_complete`: the full statement `C08_complete_full` is REFUTED on the current code
+    (`C08_complete_witness`, known defect F4, accepted trace from the unmodified library).
+    `C08_complete_partial` proves it for the flags (every descendant of a notified note is notified
+    once no activation of note_notify_child on that note is left) under the hypothesis that
+    `nsync_note_free` never adopts a child under an already notified parent (`ReachableH` — the
+    weakest hypothesis found: it excludes exactly the step that loses the notification).  NOT
+    proved: the "every thread waiting on them is released" half for the descendants' waiter
+    records (only `C08_waiters_of_notified`-style facts for the stack are available).
+  * `C08_unaffected`: proved w.r.t. the creation-time path (`ancEver`):
+    `C08_unaffected_partial`; the statement w.r.t. the current tree is `C08_unaffected_full`
+    (believed true, not proved: it needs the converse of `InvT`, which rests on the locks).
 -/
-import NsyncVerif.Proofs.NoteInvX2
+import NsyncVerif.Proofs.NoteInvJ
 import NsyncVerif.Proofs.NoteWitness
 
 set_option linter.unusedSimpArgs false
@@ -159,5 +169,187 @@ example : ∃ s s' : State, Reachable s ∧
       (.ret 0 (.expiry (some 1000000002000)))).toOption.isSome = true := by decide
   obtain ⟨s', hs'⟩ := step_of_isSome hstep
   exact ⟨_, s', reachable_stateAfter _ f5a_prefix_ok, hs', by decide, by decide⟩
+
+/-! ### Completeness of delivery -/
+
+/-- The thread is still delivering a notification / disconnecting a note: it is inside `notify`,
+    `note_notify_child` or `nsync_note_free`, and not parked in WAIT_FOR_NO_CHILDREN (where it only
+    waits for other threads). -/
+def Delivering : PC → Bool
+  | .nfy .. => true
+  | .chd (.waitRet _) _ _ => false
+  | .chd .. => true
+  | .fr (.waitRet _) .. => false
+  | .fr .. => true
+  | _ => false
+
+/-- The statement at full strength: once no thread is delivering any more, every descendant `d`
+    of a notified note `n` is notified and has no waiter record that is still waiting. -/
+def C08_complete_full : Prop :=
+  ∀ s, Reachable s → (∀ t, Delivering (s.pc t) = false) →
+    ∀ n d, (s.notes n).notified = true → Anc s n d →
+      (s.notes d).notified = true ∧
+      ∀ r, (s.recs r).used = true → (s.recs r).note = d → (s.recs r).waiting = false
+
+theorem f4_trace_ok : (run init Traces.f4Trace).toOption.isSome = true := by decide
+
+/-- Known defect F4 (see `Traces.f4Trace`): in the end state T0 is parked in
+    WAIT_FOR_NO_CHILDREN (note0) for ever, everybody else is idle; note0 is notified, its child
+    note2 (adopted from the freed note1) is not and never will be. -/
+theorem C08_complete_witness : ¬ C08_complete_full := by
+  intro h
+  have hpc0 : (stateAfter _ f4_trace_ok).pc 0 =
+      .chd (.waitRet false) [⟨0, none⟩] ⟨0, none, .ofApi⟩ := by decide
+  have hidle : ∀ t, t ≠ 0 → (stateAfter _ f4_trace_ok).pc t = .idle := by
+    intro t h0
+    by_cases h1 : t = 1
+    · subst h1; decide
+    · by_cases h99 : t = 99
+      · subst h99; decide
+      · have hall : Traces.f4Trace.all
+            (fun e => e.actor == some 0 || e.actor == some 1 || e.actor == some 99
+              || e.actor == none) = true := by decide
+        have hr := run_stateAfter _ f4_trace_ok
+        have key : ∀ (evs : List Event) (s0 s1 : State), run s0 evs = .ok s1 →
+            (∀ e ∈ evs, e.actor ≠ some t) → s1.pc t = s0.pc t := by
+          intro evs
+          induction evs with
+          | nil => intro s0 s1 hr _; simp [run] at hr; rw [← hr]
+          | cons e es ih =>
+            intro s0 s1 hr hne
+            simp only [run] at hr
+            cases h1 : step s0 e with
+            | ok s2 =>
+              rw [h1] at hr
+              rw [ih s2 s1 hr (fun e' he' => hne e' (List.mem_cons_of_mem _ he')),
+                step_pc_other h1 t (hne e List.mem_cons_self)]
+            | error m => rw [h1] at hr; cases hr
+        refine key _ _ _ hr ?_
+        intro e he hea
+        have := List.all_eq_true.mp hall e he
+        rw [hea] at this
+        simp [h0, h1, h99] at this
+  have hdel : ∀ t, Delivering ((stateAfter _ f4_trace_ok).pc t) = false := by
+    intro t
+    by_cases h0 : t = 0
+    · subst h0; rw [hpc0]; rfl
+    · rw [hidle t h0]; rfl
+  have hanc : Anc (stateAfter _ f4_trace_ok) 0 2 := Anc.up (by decide) (Anc.refl 0)
+  have := (h _ (reachable_stateAfter _ f4_trace_ok) hdel 0 2 (by decide) hanc).1
+  have hf : ((stateAfter _ f4_trace_ok).notes 2).notified = false := by decide
+  rw [hf] at this
+  cases this
+
+/-- C08 (proved part, flags): in executions in which `nsync_note_free` never adopts a child under
+    an already notified parent, a notified note `n` on which no thread has an activation of
+    `note_notify_child` past the store any more has no descendants left: every descendant was
+    notified and disconnected by that activation (or disconnected itself).  In particular every
+    descendant is notified. -/
+theorem C08_complete_partial {s : State} (h : ReachableH s) (n : NoteId)
+    (hn : (s.notes n).notified = true) (hq : ∀ t, ¬ Active (s.pc t) n) :
+    (s.notes n).children = [] ∧ ∀ d, Anc s n d → d = n ∧ (s.notes d).notified = true := by
+  have hch : (s.notes n).children = [] := by
+    cases hc : (s.notes n).children with
+    | nil => rfl
+    | cons c cs =>
+      obtain ⟨t, ht⟩ := h.invJ n hn (by rw [hc]; simp)
+      exact absurd ht (hq t)
+  refine ⟨hch, ?_⟩
+  have hT := h.reachable.invT
+  intro d hd
+  have : d = n := by
+    induction hd with
+    | refl => rfl
+    | up hp _ ih =>
+      have := ih
+      subst this
+      have := hT.p2c _ _ hp
+      rw [hch] at this
+      cases this
+  exact ⟨this, this ▸ hn⟩
+
+/-- While a thread does have such an activation, every note on its stack below the innermost one
+    is notified, and the innermost one is once the flag is stored. -/
+theorem C08_stack_notified {s : State} (hr : Reachable s) {t : Tid} {pos : CPos} {f : Frame}
+    {rest : List Frame} {top : Top} (hpc : s.pc t = .chd pos (f :: rest) top) :
+    (∀ g ∈ rest, s.Notified g.note) ∧ (pos.stored = true → s.Notified f.note) := by
+  have hc := hr.inv6.2.1.claim t
+  rw [hpc] at hc
+  exact ⟨fun g hg => (hc.2.2.2.1 g hg).1, hc.2.2.2.2.2.1⟩
+
+/-! ### Ancestors and siblings are unaffected -/
+
+/-- The statement w.r.t. the current tree: a flag is set only for a note that is, at that time, a
+    descendant of the note whose `notify` the storing thread is in. -/
+def C08_unaffected_full : Prop :=
+  ∀ (s s' : State) (e : Event) (k : NoteId), Reachable s → step s e = .ok s' →
+    (s.notes k).notified = false → (s'.notes k).notified = true →
+    ∃ a pos stk top, e.actor = some a ∧ s.pc a = .chd pos stk top ∧ Anc s top.n k
+
+/-- C08 (proved part): a flag is set only by a thread inside `notify (n)` (reached from
+    `nsync_note_notify (n)` or from the expiry of `n`'s deadline), and only for a note `k` that is `n`
+    itself or had `n` on its path to the root when it was created.  Ancestors and siblings of `n`
+    (which do not have `n` on their creation path, `Lt` being a strict order) are never touched. -/
+theorem C08_unaffected_partial {s s' : State} {e : Event} {k : NoteId} (hr : Reachable s)
+    (hs : step s e = .ok s') (h0 : (s.notes k).notified = false)
+    (h1 : (s'.notes k).notified = true) :
+    ∃ a f rest top, e.actor = some a ∧ s.pc a = .chd .st (f :: rest) top ∧ f.note = k ∧
+      (k = top.n ∨ Lt s top.n k) := by
+  obtain ⟨_, hN, hS, _, hL, _⟩ := hr.inv6
+  rcases step_flag_new hs k h1 with h | ⟨a, f, rest, top, ha, hpc, hf⟩
+  · rw [h0] at h; cases h
+  · refine ⟨a, f, rest, top, ha, hpc, hf, ?_⟩
+    have hc := hL.claim a
+    rw [hpc] at hc
+    cases rest with
+    | nil =>
+      left
+      have : f.note = top.n := by simpa using hc.2.2.1
+      rw [← hf, this]
+    | cons g gs =>
+      right
+      have hlast := hc.2.2.1
+      simp only [List.getLast?_cons_cons] at hlast
+      cases hl : (g :: gs).getLast? with
+      | none => rw [hl] at hlast; cases hlast
+      | some l =>
+        rw [hl] at hlast
+        have hln : l.note = top.n := by simpa using hlast
+        have := LClaim.above_head hL hc l.note
+          (List.mem_append_left _ (List.mem_map_of_mem (List.mem_of_getLast? hl)))
+        rw [hln, hf] at this
+        exact this
+
+/-- … hence never for a note strictly above `n` (an ancestor, now or ever). -/
+theorem C08_ancestors_unaffected {s s' : State} {e : Event} {k : NoteId} (hr : Reachable s)
+    (hs : step s e = .ok s') (h0 : (s.notes k).notified = false)
+    (h1 : (s'.notes k).notified = true) {a : Tid} {pos : CPos} {stk : List Frame} {top : Top}
+    (ha : e.actor = some a) (hpc : s.pc a = .chd pos stk top) : ¬ Lt s k top.n := by
+  obtain ⟨a', f, rest, top', ha', hpc', _, hk⟩ := C08_unaffected_partial hr hs h0 h1
+  rw [ha] at ha'; cases ha'
+  rw [hpc] at hpc'; cases hpc'
+  have hL := hr.inv6.2.2.2.2.1
+  intro hlt
+  rcases hk with hk | hk
+  · subst hk; exact hlt.irrefl
+  · exact Lt.asymm hL hlt hk
+
+/-! ### Non-vacuity -/
+
+/-- A 3-level tree notified from the root (accepted trace from the harness): all three flags set,
+    the final `nsync_note_is_notified (note2)` returns 1. -/
+example : (match run init Traces.treeTrace with
+    | .ok s => (s.notes 0).notified && (s.notes 1).notified && (s.notes 2).notified &&
+        decide ((s.notes 0).children = []) &&
+        decide (s.observed.head?.map (fun o => (o.n, o.res)) = some (2, true))
+    | .error _ => false) = true := by decide
+
+/-- A deadline-driven notification performed by a poller: first poll 0, clock passes the deadline,
+    second poll 1 and the flag is set by the poller itself. -/
+example : (match run init Traces.deadlineTrace with
+    | .ok s => (s.notes 0).notified && !(s.notifyCalled 0) &&
+        decide (s.observed.map (fun o => (o.n, o.res, o.after)) =
+          [(0, true, false), (1, false, false), (0, false, false)])
+    | .error _ => false) = true := by decide
 
 end Note
